@@ -432,6 +432,94 @@ func envFsm() string {
 		preLockReads += stateReads(funcsByName, fd.Body, lockPos, fd, 0)
 	}
 
+	// ---- 7. RpcServer.ControlEnvironment: between the requested TryTransition and the fallback to
+	// ERROR (TryTransition(GO_ERROR) / ForceError, directly or in a helper of the package) nothing
+	// can leave the function, and nothing after the transition looks at the caller's context
+	ce := findFunc(srv, "RpcServer", "ControlEnvironment")
+	if ce == nil || ce.Body == nil {
+		die("envfsm: RpcServer.ControlEnvironment not found")
+	}
+	coreFuncs := pkgFuncs(pkgFiles("core"))
+	ctxParam := ""
+	for _, fl := range ce.Type.Params.List {
+		if se, ok := fl.Type.(*ast.SelectorExpr); ok && se.Sel.Name == "Context" && len(fl.Names) == 1 {
+			ctxParam = fl.Names[0].Name
+		}
+	}
+	var fallbackMark func(n ast.Node, depth int) bool
+	fallbackMark = func(n ast.Node, depth int) bool {
+		found := false
+		ast.Inspect(n, func(x ast.Node) bool {
+			c, ok := x.(*ast.CallExpr)
+			if !ok || found {
+				return !found
+			}
+			switch selName(c.Fun) {
+			case "ForceError", "NewGoErrorTransition":
+				found = true
+			default:
+				if depth < 2 {
+					if cal := localCallee(coreFuncs, c); cal != nil && cal != ce && fallbackMark(cal.Body, depth+1) {
+						found = true
+					}
+				}
+			}
+			return !found
+		})
+		return found
+	}
+	posTry, posFb := token.NoPos, token.NoPos
+	ast.Inspect(ce.Body, func(x ast.Node) bool {
+		c, ok := x.(*ast.CallExpr)
+		if !ok {
+			return true
+		}
+		if selName(c.Fun) == "TryTransition" && !fallbackMark(c, 0) && (posTry == token.NoPos || c.Pos() < posTry) {
+			posTry = c.Pos()
+		}
+		return true
+	})
+	if posTry == token.NoPos {
+		die("envfsm: ControlEnvironment does not call TryTransition with the requested transition")
+	}
+	ast.Inspect(ce.Body, func(x ast.Node) bool {
+		c, ok := x.(*ast.CallExpr)
+		if !ok || c.Pos() <= posTry {
+			return true
+		}
+		if fallbackMark(c, 0) && (posFb == token.NoPos || c.Pos() < posFb) {
+			posFb = c.Pos()
+		}
+		return true
+	})
+	if posFb == token.NoPos {
+		die("envfsm: ControlEnvironment has no fallback to ERROR (TryTransition(GO_ERROR) / ForceError) after the requested transition")
+	}
+	controlExits, controlCtxUses := 0, 0
+	ast.Inspect(ce.Body, func(x ast.Node) bool {
+		switch v := x.(type) {
+		case *ast.FuncLit:
+			return false
+		case *ast.ReturnStmt:
+			if v.Pos() > posTry && v.Pos() < posFb {
+				controlExits++
+			}
+		case *ast.BranchStmt:
+			if v.Tok == token.GOTO && v.Pos() > posTry && v.Pos() < posFb {
+				controlExits++
+			}
+		case *ast.CallExpr:
+			if id, ok := v.Fun.(*ast.Ident); ok && id.Name == "panic" && v.Pos() > posTry && v.Pos() < posFb {
+				controlExits++
+			}
+		case *ast.Ident:
+			if ctxParam != "" && v.Name == ctxParam && v.Pos() > posTry {
+				controlCtxUses++
+			}
+		}
+		return true
+	})
+
 	// ---- output
 	var b strings.Builder
 	b.WriteString("(* regenerated on every run by harness/cmd/translate (envfsm) from\n   core/environment/environment.go, manager.go, transition*.go, core/server.go *)\n")
@@ -492,5 +580,8 @@ func envFsm() string {
 	fmt.Fprintf(&b, "(* RpcServer.DestroyEnvironment *)\nDefinition env_states_for_destroy : list estate := %s.\n", coqList(ss))
 	b.WriteString("\n(* reads of the FSM state (CurrentState / Sm.Current / Sm.Is / Sm.Can) that precede the first\n   transitionMutex.Lock / TryLock in TryTransition, ForceError and TeardownEnvironment *)\n")
 	fmt.Fprintf(&b, "Definition env_prelock_state_reads : N := %d.\n", preLockReads)
+	b.WriteString("\n(* RpcServer.ControlEnvironment: ways out of the function (return, goto, panic) between the\n   requested TryTransition and the fallback to ERROR; uses of the caller's context after the\n   requested TryTransition *)\n")
+	fmt.Fprintf(&b, "Definition env_control_exits_before_fallback : N := %d.\n", controlExits)
+	fmt.Fprintf(&b, "Definition env_control_ctx_uses_after_transition : N := %d.\n", controlCtxUses)
 	return b.String()
 }
